@@ -294,6 +294,7 @@ Definition is_set_error (o : op) : bool := match o with SetError _ => true | _ =
 Definition is_poll (o : op) : bool := match o with Poll => true | _ => false end.
 Definition is_feed (o : op) : bool := match o with Feed _ => true | _ => false end.
 Definition eof_fed (ops : list op) : bool := existsb is_feed_eof ops.
+Definition polls (ops : list op) : nat := length (filter is_poll ops).
 
 (* the dispatchers give the sender away with the final chunk: nothing is fed after feed_eof *)
 Fixpoint feeds_end_at_eof (ops : list op) : bool :=
